@@ -1306,6 +1306,22 @@ _bucket_setstate(Bucket *self, PyObject *state)
     ASSERT(len >= 0, "_bucket_setstate: items tuple has negative size", -1);
     len /= 2;
 
+    /* Get the memory first: if that fails the bucket still holds its old
+     * contents.  Each vector is stored as soon as it has been reallocated
+     * (realloc may have moved and freed the old block).
+     */
+    if (len > self->size) {
+        keys = BTree_Realloc(self->keys, sizeof(KEY_TYPE)*len);
+        if (keys == NULL)
+            return -1;
+        self->keys = keys;
+        values = BTree_Realloc(self->values, sizeof(VALUE_TYPE)*len);
+        if (values == NULL)
+            return -1;
+        self->values = values;
+        self->size = len;
+    }
+
     for (i = self->len; --i >= 0; ) {
         DECREF_KEY(self->keys[i]);
         DECREF_VALUE(self->values[i]);
@@ -1315,18 +1331,6 @@ _bucket_setstate(Bucket *self, PyObject *state)
     if (self->next) {
         Py_DECREF(self->next);
         self->next = NULL;
-    }
-
-    if (len > self->size) {
-        keys = BTree_Realloc(self->keys, sizeof(KEY_TYPE)*len);
-        if (keys == NULL)
-            return -1;
-        values = BTree_Realloc(self->values, sizeof(VALUE_TYPE)*len);
-        if (values == NULL)
-            return -1;
-        self->keys = keys;
-        self->values = values;
-        self->size = len;
     }
 
     for (i=0, l=0; i < len; i++) {
